@@ -1,0 +1,17 @@
+//go:build verif
+// +build verif
+
+package tdpos
+
+import "github.com/xuperchain/xupercore/kernel/consensus/base"
+
+// VerifMinerScheduling exposes the package-private slot schedule of a consensus instance
+// created by NewTdposConsensus (add-only test hook, build tag verif).
+func VerifMinerScheduling(c base.ConsensusImplInterface, timestamp int64) (term int64, pos int64, blockPos int64, ok bool) {
+	tp, isTdpos := c.(*tdposConsensus)
+	if !isTdpos || tp == nil || tp.election == nil {
+		return 0, 0, 0, false
+	}
+	term, pos, blockPos = tp.election.minerScheduling(timestamp)
+	return term, pos, blockPos, true
+}
